@@ -76,6 +76,20 @@ fn gen(rng: &mut Rng, idx: u64, tier: Tier) -> Case {
                 lines.push((gen::gap_us(rng, d).min(3_000_000), gen::line_of(rng, &f, false), "acas-ra-names-other".into()));
                 continue;
             }
+            if rng.chance(0.01) {
+                // a burst: dozens of frames of one aircraft within a second, values changing from frame to frame
+                let mut t_left = 1_000_000i64;
+                for _ in 0..rng.range(30, 120) {
+                    acs[a].alt_n = rng.range(41, 1800) as u64;
+                    let kind = *rng.pick(&[Kind::Df4, Kind::AirPos, Kind::Vel12, Kind::Ident, Kind::Df5, Kind::Df11]);
+                    if matches!(kind, Kind::Ident) && !twins { acs[a].callsign = gen::callsign(rng); }
+                    if matches!(kind, Kind::Df5) { acs[a].sq = [rng.below(8), rng.below(8), rng.below(8), rng.below(8)]; }
+                    let f = gen::frame(rng, &mut acs[a], kind, true);
+                    let dt = rng.range(0, 20_000).min(t_left);
+                    t_left -= dt;
+                    lines.push((dt, gen::line_of(rng, &f, false), format!("{:?}:burst", kind).to_lowercase()));
+                }
+            }
             let kind = if rng.chance(0.1) { Kind::Df18 } else { *rng.pick(gen::COMMON_KINDS) };
             let vflag = rng.chance(0.7);
             let f = if rng.chance(0.8) { gen::frame(rng, &mut acs[a], kind, vflag) } else { invalid_variant(rng, &mut acs[a], kind) };
@@ -86,6 +100,7 @@ fn gen(rng: &mut Rng, idx: u64, tier: Tier) -> Case {
             if rng.chance(0.04) { lines.push((rng.range(1, 3_000_000), line, format!("{:?}:duplicate-delayed", kind).to_lowercase())); }
         }
     }
+    gen::long_uptime(rng, &mut lines, 0.03);
     let ch = if rng.chance(0.15) { Chunking::Pieces } else { Chunking::Line };
     let ops = gen::ops_of(rng, lines, ch);
     let mut script = Script::file(args, ops);
@@ -298,6 +313,26 @@ fn check(case: &Case, st: &mut Stats) -> Vec<Violation> {
                 st.probe("duplicate_immediately");
                 if Some(new) != prev {
                     v.push(viol("C11.not-idempotent", i, format!("re-feeding DF{} frame {} to the existing row {:06X} changed it: {}", c.df, crate::script::escape(l), a, diff_fields(prev.unwrap(), new).join("; ")), json!({"df": c.df, "tc": car.tc})));
+                    break 'steps;
+                }
+            }
+        }
+        // TC19 subtype 1/2: ground speed and track are also derived independently from the two velocity
+        // components (tolerance one unit of the subtype's resolution and one degree: the rounding is not specified)
+        if c.df == 17 && car.tc == 19 && (car.st == 1 || car.st == 2) {
+            let (dew, vew, dns, vns) = (modes::get_bits(frame, 46, 46), modes::get_bits(frame, 47, 56) as f64, modes::get_bits(frame, 57, 57), modes::get_bits(frame, 58, 67) as f64);
+            if vew >= 1.0 && vns >= 1.0 {
+                let k = if car.st == 2 { 4.0 } else { 1.0 };
+                let vx = (vew - 1.0) * if dew == 1 { -1.0 } else { 1.0 };
+                let vy = (vns - 1.0) * if dns == 1 { -1.0 } else { 1.0 };
+                let gs = (vx * vx + vy * vy).sqrt() * k;
+                let trk = (vx.atan2(vy).to_degrees() + 360.0) % 360.0;
+                st.probe("tc19_velocity_checked_independently");
+                if vew > 512.0 || vns > 512.0 { st.probe("tc19_component_above_511"); }
+                let gs_ok = new.grspeed.map(|g| (g as f64 - gs).abs() <= k + 1e-6).unwrap_or(false);
+                let trk_ok = gs < 1.0 || new.track.map(|t| { let dd = (t as f64 - trk).abs(); dd.min(360.0 - dd) <= 1.0 + 1e-6 }).unwrap_or(false);
+                if !gs_ok || !trk_ok {
+                    v.push(viol("C11.not-latest", i, format!("{:06X}: TC19 subtype {} carries velocity components ({:+.0}, {:+.0}) x{} kt = ground speed {:.1} kt, track {:.1} deg; the row shows {:?} kt / {:?} deg", a, car.st, vx, vy, k, gs, trk, new.grspeed, new.track), json!({"param": "ground speed", "independent": true, "df": 17, "tc": 19, "st": car.st, "use_update_method": uflag})));
                     break 'steps;
                 }
             }
